@@ -131,7 +131,7 @@ class Check(BaseCheck):
                    'returning a host list unchanged is aliasing, not mutation; growth during the first two passes is warm-up',
                    '"unbounded repetition counts" is restated as: no growth in every one of R passes (R = 8 quick / 30 thorough) over a corpus of K formulas')
 
-    NO_AMBIENT = ('order', 'ambient_reads')      # its shards are compared with each other: they differ in evaluation order and hash seed only
+    NO_AMBIENT = ('order', 'ambient_reads', 'ambient_states')      # its shards are compared with each other: they differ in evaluation order and hash seed only
 
     def plan(self, tier, seed):
         q = tier == 'quick'
@@ -142,6 +142,8 @@ class Check(BaseCheck):
         for k in range(4 if q else 8):
             # ... and under different string-hash seeds: what a set or dict of names happens to yield first is not part of the formula
             specs.append({'campaign': 'order', 'seed': seed, 'perm': k, 'per_function': 14 if q else 60, 'hashseed': [0, 1, 4242, 31337, 7, 99, 123456789, 2][k % 8]})
+        for amb in ({}, {'tz': 'EST5EDT,M3.2.0,M11.1.0'}, {'tz': 'NZST-12NZDT,M9.5.0,M4.1.0/3'}, {'tz': 'CET-1CEST,M3.5.0,M10.5.0/3'}, {'warnings': 'error'}, {'years_ahead': 7}, {'years_ahead': 30}):
+            specs.append(dict({'campaign': 'ambient_states'}, **amb))
         for i in range(4):
             specs.append({'campaign': 'ambient_reads', 'seed': seed, 'per_function': 14 if q else 60, 'i': i, 'k': 4})
         for i in range(4):
@@ -436,8 +438,73 @@ class Check(BaseCheck):
         rec.count('order_evaluations', len(fs))
         rec.sample({'formulas_in_list': len(fs), 'permutation': spec['perm'], 'first': [fs[i] for i in idx[:4]]})
 
+    # ------------------------------------------------------------------ (a''') the same formulas under different ambient states of the process
+    ZONE_FORMULAS = ['DATEVALUE("2020-01-01 10:00 %s")', 'HOUR("2020-06-01 10:00 %s")', '"2020-01-01 10:00 %s"+1', 'YEAR("1999-12-31 23:00 %s")', 'DAYS("2021-03-01 %s","2021-02-01")',
+                     'WEEKDAY("2020-02-29T13:45:10%s")', 'N("2020-02-29 13:45 %s"+0)', '"2020-07-01 %s"<"2020-07-02"', 'MONTH("5 May 2020 12:00 %s")']
+    ZONE_NAMES = ['EST', 'EDT', 'NZST', 'NZDT', 'CET', 'CEST', 'UTC', 'GMT', 'Z', '+02:00', '-0500', 'HST', 'IST', 'XYZ', 'BST', '']
+    YEAR_FORMULAS = ['YEAR("3/15/80")', 'DATEVALUE("1-2-77")', '(1&-2&-77)+0', 'YEAR("31 Dec 49")', 'YEAR("1 Jan 50")', 'DATEVALUE("12/31/29")', 'YEAR("5/5/05")', '"1/1/68"+0']
+
+    def c_ambient_states(self, spec, rec):
+        """one fixed list of date texts with zone designators / abbreviations and two-digit years, evaluated in processes that differ in time
+        zone, warnings filter and (a stand-in for) the year the process was started in: every outcome must be the same in all of them"""
+        import datetime
+        fs = [f % z for f in self.ZONE_FORMULAS for z in self.ZONE_NAMES] + self.YEAR_FORMULAS
+        p = build(Bindings(), False)
+        res = {}
+        if spec.get('years_ahead'):
+            # dateutil decides the century of a two-digit year relative to the year in which ITS parser object was made: make the
+            # library's parser objects again under a clock that many years ahead (what a process started then would have)
+            import importlib
+            import dateutil.parser
+            from hotxlfp.formulas import utils as futils
+            with self.ShiftedClock(datetime.timedelta(days=366 * spec['years_ahead'])):
+                try:
+                    import time as rtime
+                    real_localtime = rtime.localtime
+                    shift = 366 * 86400 * spec['years_ahead']
+                    rtime.localtime = lambda *a: real_localtime(*(a or (rtime.time() + shift,)))
+                    try:
+                        fresh = dateutil.parser.parser()
+                    finally:
+                        rtime.localtime = real_localtime
+                    for mod in (futils,):
+                        for k, v in list(vars(mod).items()):
+                            if v is dateutil.parser.parse:
+                                setattr(mod, k, fresh.parse)
+                            elif isinstance(getattr(v, '__self__', None), dateutil.parser.parser):
+                                # the library keeps a parser object of its own: make one of the same kind again now
+                                own = v.__self__
+                                setattr(mod, k, getattr(type(own)(type(own.info)()), v.__name__))
+                    rec.count('library_date_parser_rebuilt_under_a_later_year')
+                except Exception as e:
+                    rec.inconcl('could not rebuild the date parser under a shifted year: %r' % e)
+                    return
+        for i, f in enumerate(fs):
+            res[i] = stable_text(outcome(p.parse(f)))[:200]
+            rec.case()
+        tag = 'tz=%s,warnings=%s,years_ahead=%s' % (spec.get('tz'), spec.get('warnings'), spec.get('years_ahead'))
+        rec.series['ambient.' + tag] = {'outcomes': res, 'formulas': len(fs)}
+        rec.cov('ambient_states_compared', tag)
+        rec.sample({'formula': fs[0], 'ambient': tag})
+
     def cross(self, merged):
         """the same formulas were evaluated in different orders in different processes: every outcome must agree"""
+        amb = {k: v for k, v in merged['series'].items() if k.startswith('ambient.') and isinstance(v, dict)}
+        out_amb = []
+        if len(amb) >= 2:
+            keys = sorted(amb)
+            fs = [f % z for f in self.ZONE_FORMULAS for z in self.ZONE_NAMES] + self.YEAR_FORMULAS
+            base = amb[keys[0]]
+            for k in keys[1:]:
+                for i, o in base['outcomes'].items():
+                    if amb[k]['outcomes'].get(i) != o and len(out_amb) < 8:
+                        f = fs[int(i)]
+                        out_amb.append(('C02/outcome-depends-on-the-ambient-state-of-the-process:' + f.split('(')[0][:12],
+                                        {'formula': f, 'under_' + keys[0]: o, 'under_' + k: amb[k]['outcomes'].get(i), 'shard': {'campaign': 'ambient_states', 'cross': True}}))
+            merged['counts']['ambient_outcomes_compared'] = len(base['outcomes']) * (len(keys) - 1)
+        return out_amb + self.cross_order(merged)
+
+    def cross_order(self, merged):
         runs = {k: v for k, v in merged['series'].items() if k.startswith('order.') and isinstance(v, dict)}
         out = []
         if len(runs) < 2:
